@@ -17,6 +17,8 @@ func main() {
 	switch os.Args[1] {
 	case "ledger":
 		ledgerMain(os.Args[2:])
+	case "file":
+		fileMain(os.Args[2:])
 	case "cache":
 		cacheMain(os.Args[2:])
 	case "spice":
